@@ -41,5 +41,8 @@ package connlimit
 //@   ensures balanced: forall t string :: cl.held[t] == old(cl.held[t])
 //@   ensures_panic balanced: forall t string :: cl.held[t] == old(cl.held[t])
 //@   ensures one_outcome: calls(cl.next.ServeHTTP) + calls(cl.errHandler.ServeHTTP) == 1
+//@   ensures {C20} writes_nothing_itself: calls(w.WriteHeader) == 0 && calls(w.Write) == 0
+//@   ensures {C20} refusal_is_the_handlers: calls(cl.errHandler.ServeHTTP) == 1 ==> callarg(cl.errHandler.ServeHTTP, 0, 0) == w && callarg(cl.errHandler.ServeHTTP, 0, 1) == r
+//@   at_call cl.next.ServeHTTP {C20} same_writer_and_request: arg0 == w && arg1 == r
 //@   at_call cl.next.ServeHTTP slot_held: cl.held[callarg(acquire, 0, 1)] >= old(cl.held[callarg(acquire, 0, 1)]) + 1
 //@   at_call cl.errHandler.ServeHTTP nothing_held: forall t string :: cl.held[t] == old(cl.held[t])
